@@ -416,6 +416,30 @@ def rule_b(chk, t):
         where = ('except ' + '/'.join(clause[-1] or ('*',))) if clause else _branch_of(u)
         chk.ob('b', t.ref, 'a retired task is continued, handed to a wait state or accounted for on every path', ok, loc(t, u.ast),
                path=pat.path_lines((before or []) + (after or [])) if not ok else None, discr=f'retire:{where}')
+    # a wait is linked to the generator that yielded it: that generator is the one to resume when the wait is over
+    g_ = g
+    for n in g_.nodes:
+        if n.kind != 'stmt':
+            continue
+        for recv, a, v in pat.attr_store(n.ast):
+            if a != 'parent' or not _is_wait_state(t, recv):
+                continue
+            # the wait generator handed to this state: `<recv>.task = V`
+            tasks = [v2 for m in g_.nodes if m.kind == 'stmt' for r2, a2, v2 in pat.attr_store(m.ast) if r2 == recv and a2 == 'task' and isinstance(v2, ast.Name)
+                     and (Q.reaches(m, n, exc=()) or Q.reaches(n, m, exc=()))]
+            yielders = set()
+            for v2 in tasks:
+                for d in Q.reaching_defs(g_, n, v2.id):
+                    dv = d.ast.value if d.kind == 'stmt' and isinstance(d.ast, ast.Assign) else None
+                    if isinstance(dv, ast.Call) and call_name(dv) == 'next' and dv.args:
+                        yielders.add(src(dv.args[0]))
+                    elif isinstance(dv, ast.Call) and isinstance(dv.func, ast.Attribute) and dv.func.attr in ('send', 'throw'):
+                        yielders.add(src(dv.func.value))
+                    else:
+                        yielders.add('?')
+            ok = bool(yielders) and yielders == {src(v)}
+            chk.ob('b', t.ref, 'a wait is linked to the generator that yielded it (the one stepped with next/send/throw just before): that is the caller resumed when the wait is over',
+                   ok, loc(t, n.ast), detail=f'yielded by {sorted(yielders)}, linked to `{src(v)}`', discr=f'wait-linked-to-yielder:{_branch_of(n)}')
     # except clauses agree on the accounting: both decrement the waiting count
     for h in pat.except_nodes(g):
         names = handler_names(h.ast)
